@@ -2,7 +2,7 @@
 import json, os, threading
 
 A_DEV, F_DEV = "Dev_C37_SharedWantCancelled", "Dev_C37_RewantAfterCancel"
-LEAK_DEVS = {"Dev_C37_LocalBlockWantLeak", "Dev_C37_BroadcastAfterCancel", "Dev_C37_LateWantAfterReceive",
+LEAK_DEVS = {A_DEV, "Dev_C37_LocalBlockWantLeak", "Dev_C37_BroadcastAfterCancel", "Dev_C37_LateWantAfterReceive",
              "Dev_C37_WantAfterDelivery", F_DEV}
 PKG = "bitswap/testinstance"
 HARNESS = ["bitswap/testinstance/zz_verif_C37_test.go"]
@@ -28,11 +28,13 @@ META = dict(
 def _par(tasks):
     """run callables concurrently (TLC JVMs + go build are independent processes)"""
     res, errs = {}, []
+    sem = threading.Semaphore(6)
     def wrap(k, f):
-        try:
-            res[k] = f()
-        except Exception as e:      # re-raised in the caller thread
-            errs.append(e)
+        with sem:
+            try:
+                res[k] = f()
+            except Exception as e:      # re-raised in the caller thread
+                errs.append(e)
     ths = [threading.Thread(target=wrap, args=(k, f)) for k, f in tasks.items()]
     for t in ths:
         t.start()
